@@ -1,4 +1,5 @@
 import TabulaModel.Lemmas.VMerge
+import TabulaModel.Lemmas.Docx
 import TabulaModel.Props.C16
 /-!
 # C16 — DOCX vertical merges: the row spans, for every table
@@ -39,19 +40,55 @@ theorem parseRows_rowSpan (tbl : Node) (r i : Nat) (c : Cell) (h : cellAt (parse
       simp only [hc, Option.map_some, Option.some.injEq] at h
       rw [← h]; rfl
 
-/-- **docx_row_spans**. In a parsed DOCX table the row span of cell `i` of row `r` is one plus
-the number of continuation cells that point to it - for every `w:tbl`, whatever the grid
-spans of its rows (the rows a merge runs through may be partitioned differently). -/
-theorem docx_row_spans (tbl : Node) (r i : Nat) :
+/-- before the vertical-merge pass every cell is one row high, whether `limitTableGrid` has
+reset the spans or not -/
+theorem limited_rowSpan (tbl : Node) (r i : Nat) (c : Cell)
+    (h : cellAt (limitTableGrid (parseRows tbl)) r i = some c) : c.rowSpan = 1 := by
+  cases limit_cases (parseRows tbl) with
+  | inl he => rw [he] at h; exact parseRows_rowSpan tbl r i c h
+  | inr he =>
+    rw [he] at h
+    unfold cellAt resetSpans at h
+    rw [List.getElem?_map] at h
+    cases hr : (parseRows tbl)[r]? with
+    | none => simp [hr] at h
+    | some row =>
+      simp only [hr, Option.map_some, Option.bind_some, List.getElem?_map] at h
+      cases hc : row[i]? with
+      | none => simp [hc] at h
+      | some c0 =>
+        simp only [hc, Option.map_some, Option.some.injEq] at h
+        rw [← h]
+
+/-- **docx_row_spans_any**. In a parsed DOCX table the row span of cell `i` of row `r` is one
+plus the number of continuation cells that point to it - for every `w:tbl`; the columns the
+continuation cells are matched on are those of the table after `limitTableGrid` (every cell
+one column wide when the table is over the grid limit). -/
+theorem docx_row_spans_any (tbl : Node) (r i : Nat) :
     (cellAt (parseTable tbl) r i).map (·.rowSpan)
-      = (cellAt (parseRows tbl) r i).map fun _ => 1 + (targets (parseRows tbl)).count (r, i) := by
+      = (cellAt (limitTableGrid (parseRows tbl)) r i).map fun _ =>
+          1 + (targets (limitTableGrid (parseRows tbl))).count (r, i) := by
   unfold parseTable
   rw [vmerge_row_spans]
-  cases h : cellAt (parseRows tbl) r i with
+  cases h : cellAt (limitTableGrid (parseRows tbl)) r i with
   | none => rfl
   | some c =>
     simp only [Option.map_some, Option.some.injEq]
-    rw [parseRows_rowSpan tbl r i c h]
+    rw [limited_rowSpan tbl r i c h]
+
+/-- **docx_row_spans**. In a parsed DOCX table the row span of cell `i` of row `r` is one plus
+the number of continuation cells that point to it, matched on the authored grid spans (the rows
+a merge runs through may be partitioned differently).
+RESTATED (was: for every `w:tbl`): holds for every table within the grid limit of
+`limitTableGrid` (rows x spanned columns ≤ 2^20, hypothesis `h`); for the others
+`docx_row_spans_any` says on which columns the merges are matched. -/
+theorem docx_row_spans (tbl : Node) (r i : Nat)
+    (h : (parseRows tbl).length * colCount (parseRows tbl) ≤ maxTableGridCells) :
+    (cellAt (parseTable tbl) r i).map (·.rowSpan)
+      = (cellAt (parseRows tbl) r i).map fun _ => 1 + (targets (parseRows tbl)).count (r, i) := by
+  have := docx_row_spans_any tbl r i
+  rw [limit_within _ h] at this
+  exact this
 
 /-- a cell that no continuation cell points to keeps its row span -/
 theorem vmerge_untouched (rows : List (List Cell)) (r i : Nat) (h : (r, i) ∉ targets rows) :
